@@ -21,6 +21,9 @@ import (
 
 var verifDir = "/verif"
 
+// knownFalsePost: obligation names "<function>/post:<label>" listed as findings in known_findings.txt.
+var knownFalsePost = map[string]bool{}
+
 func main() {
 	if len(os.Args) < 2 {
 		fmt.Fprintln(os.Stderr, "usage: govc check <Cxx> [--tier quick|thorough] [--repo dir] | verify <regex> | list | ext | replay <file>")
@@ -29,6 +32,12 @@ func main() {
 	defer cleanupScratch()
 	if d := os.Getenv("GOVC_VERIF_DIR"); d != "" {
 		verifDir = d
+	}
+	// a postcondition recorded as a known finding is known NOT to hold: it is never assumed at a call site
+	for _, f := range loadFindings() {
+		if f.Kind == "finding" && strings.Contains(f.Obligation, "/post:") {
+			knownFalsePost[f.Obligation] = true
+		}
 	}
 	switch os.Args[1] {
 	case "check":
@@ -885,7 +894,7 @@ func cmdVerify(args []string) int {
 		for _, g := range groups {
 			if *slowDir != "" {
 				for i, o := range g.Instances {
-					if o.Seconds > 3 {
+					if o.Seconds > 3 || os.Getenv("GOVC_DUMP_ALL") != "" {
 						os.MkdirAll(*slowDir, 0o755)
 						os.WriteFile(filepath.Join(*slowDir, fmt.Sprintf("%s_%d.smt2", strings.ReplaceAll(strings.TrimPrefix(g.Name, r.Key+"/"), "/", "_"), i)), []byte(Script(o.Hyps, o.Goal, nil)), 0o644)
 					}
